@@ -116,8 +116,7 @@ Proof.
     assert (Ha : okn env a) by assumption. assert (Hb : okn env b) by assumption.
     first3. match goal with |- assign_value env ?l0 ?e0 = _ => rewrite (inl_nnary_sound env BOr r a [b] eq_refl Ha (Forall_cons _ Hb (Forall_nil _)) ltac:(lia) l0 e0 eq_refl) end.
     cbn [fold_left bop].
-    rewrite C08_nor2; [unfold nor2_spec; apply trunc_lnot_spec; lia | destruct Ha; lia | lia | exact (proj2 Ha) |].
-    destruct Hb as [Hwb Hvb]. unfold fits. eapply small_in_wider; [|exact Hvb]. lia.
+    rewrite C08_nor2_any_mid by lia. unfold nor2_spec; apply trunc_lnot_spec; lia.
   - (* And: a0 & a1 & ...  =  the And2 ladder (C08_and) *)
     destruct ins as [|x t]; [discriminate|]. inv_forall.
     assert (Hx : okn env x) by assumption. assert (Ht : Forall (okn env) t) by assumption.
@@ -130,19 +129,13 @@ Proof.
     first3. match goal with |- assign_value env ?l0 ?e0 = _ => rewrite (inl_nary_sound env BOr r x t eq_refl Hx Ht ltac:(lia) l0 e0 eq_refl) end. cbn [bop].
     rewrite C08_or by (try lia; discriminate). unfold or_spec. cbn [map lor_all fold_right]. rewrite map_map.
     rewrite (fold_lor_all (fun n => getv env (fst n))). unfold lor_all. apply trunc_mod. lia.
-  - (* Nor: ~(a0 | a1 | ...)  =  Not(Or ladder) with Mid of the first operand's width (C08_nor) *)
+  - (* Nor: ~(a0 | a1 | ...)  =  Not(Or ladder) with Mid as wide as the result (C08_nor_any_mid): ANY operand widths *)
     destruct ins as [|x t]; [discriminate|]. inv_forall.
     assert (Hx : okn env x) by assumption. assert (Ht : Forall (okn env) t) by assumption.
-    assert (Hle : forallb (fun n => snd n <=? snd x) t = true) by assumption.
     first3. match goal with |- assign_value env ?l0 ?e0 = _ => rewrite (inl_nnary_sound env BOr r x t eq_refl Hx Ht ltac:(lia) l0 e0 eq_refl) end. cbn [bop].
-    rewrite C08_nor; [| destruct Hx; lia | lia | discriminate |].
-    + unfold nor_spec. cbn [map lor_all fold_right]. rewrite map_map.
-      rewrite (fold_lor_all (fun n => getv env (fst n))). unfold lor_all. apply trunc_lnot_spec. lia.
-    + cbn [map]. constructor; [exact (proj2 Hx)|].
-      rewrite map_map. apply Forall_forall. intros v Hv. apply in_map_iff in Hv. destruct Hv as (n & <- & Hn).
-      rewrite Forall_forall in Ht. destruct (Ht n Hn) as [Hwn Hvn].
-      rewrite forallb_forall in Hle. specialize (Hle n Hn).
-      unfold fits. eapply small_in_wider; [|exact Hvn]. lia.
+    rewrite C08_nor_any_mid; [| lia | discriminate].
+    unfold nor_spec. cbn [map lor_all fold_right]. rewrite map_map.
+    rewrite (fold_lor_all (fun n => getv env (fst n))). unfold lor_all. apply trunc_lnot_spec. lia.
   - (* Equal: (a == b) ? 1 : 0  =  Xor2 + BitsLSBF + Nor (C08_equal_eqw_max): ANY operand widths *)
     assert (Ha : okn env a) by assumption. assert (Hb : okn env b) by assumption.
     first3. match goal with |- assign_value env ?l0 ?e0 = _ => rewrite (inl_equal_sound env r a b Ha Hb ltac:(lia) l0 e0 eq_refl) end.
